@@ -44,6 +44,25 @@ impl UserModel<'_> {
         let mut diff_list = Vec::new();
         let mut needs_evaluation = false;
 
+        if label.is_some() {
+            // The label is written after the link has been attached: make sure now
+            // that the cell can be written to, so that a rejected call changes nothing
+            use crate::model::CellStructure;
+            match self.model.get_cell_structure(sheet, row, column)? {
+                CellStructure::SpillArray { .. } => {
+                    return Err(
+                        "Cannot write in a cell that is part of an array formula".to_string()
+                    );
+                }
+                CellStructure::ArrayFormula { range: (w, h) } if w > 1 || h > 1 => {
+                    return Err(
+                        "Cannot write in a cell that is part of an array formula".to_string()
+                    );
+                }
+                _ => {}
+            }
+        }
+
         if old_link.as_ref() != Some(&link) {
             self.model.set_cell_link(sheet, row, column, link.clone())?;
             diff_list.push(Diff::SetCellLink {
